@@ -14,6 +14,8 @@ NEUTRALS = [{'name': 'swap multiplication order in integrand', 'file': 'partitur
 
 # changes made by sub-agents that were given only the property text (see /verif/seeded/<id>/): each must stay reported
 SEEDED = [
+    {'name': 'seeded change C02-r5b', 'seed': 'C02-r5b', 'expect': '|SIB-inv|'},
+    {'name': 'seeded change C02-r5a', 'seed': 'C02-r5a', 'expect': '|MODE-param|'},
     {'name': 'seeded change C02-r4b', 'seed': 'C02-r4b', 'expect': '|F2c|'},
     {'name': 'seeded change C02-r4a', 'seed': 'C02-r4a', 'expect': '|OWN-beat|'},
     {'name': 'seeded change C02-r3', 'seed': 'C02-r3', 'expect': '|SIB-inv|'},
